@@ -40,7 +40,7 @@ def forall(X, st, e):
     j = fresh(e.args[2].args.args[0].arg)
     body, st2 = _lam(X, st, e.args[2], j)
     st.pc += st2.pc[len(st.pc):]
-    return BoolV(z3.ForAll([j], z3.Implies(z3.And(lo.v <= j, j < hi.v), body)))
+    return BoolV(safe_forall([j], z3.Implies(z3.And(lo.v <= j, j < hi.v), body)))
 
 
 @spec
@@ -164,15 +164,15 @@ def wsum_fn(X, st, L):
         f = z3.Function(f"wsum{len(cache)}", I, I)
         k = z3.Int("k!ws")
         wf = lambda kk: z3.If(ty[el[kk]] == wait, tm[el[kk]], 0)
-        ax = [f(0) == 0, z3.ForAll([k], z3.Implies(k >= 0, f(k + 1) == f(k) + wf(k)), patterns=[f(k + 1)])]
+        ax = [f(0) == 0, safe_forall([k], z3.Implies(k >= 0, f(k + 1) == f(k) + wf(k)), patterns=[f(k + 1)])]
         n, j = z3.Int("n!ws"), z3.Int("j!ws")
         for okey, (g, gax, wg) in list(cache.items()):
             for (fa, wa, fb, wb) in ((g, wg, f, wf), (f, wf, g, wg)):
                 for s_ in (0, 1):
-                    hyp = z3.ForAll([j], z3.Implies(z3.And(0 <= j, j < n), wa(j) == wb(j + s_)))
+                    hyp = safe_forall([j], z3.Implies(z3.And(0 <= j, j < n), wa(j) == wb(j + s_)))
                     if s_ == 1:
                         hyp = z3.And(hyp, wb(0) == 0)
-                    ax.append(z3.ForAll([n], z3.Implies(z3.And(n >= 0, hyp), fb(n + s_) == fa(n)), patterns=[fa(n)] if s_ == 0 else [fa(n), fb(n + 1)]))
+                    ax.append(safe_forall([n], z3.Implies(z3.And(n >= 0, hyp), fb(n + s_) == fa(n)), patterns=[fa(n)] if s_ == 0 else [fa(n), fb(n + 1)]))
             X.notes.append("L: instances of lemma wsum_ext relate wait-sums across heap states")
         cache[key] = (f, ax, wf)
     f, ax, _ = cache[key]
@@ -192,8 +192,8 @@ def wsum_mono(X, st, e):
     a, b, k = fresh("a"), fresh("b"), fresh("k")
     wait = X.ctx.enums["MessageType"].index("WAIT")
     el = st.heap["@el"][L.v]
-    nonneg = z3.ForAll([k], z3.Implies(z3.And(0 <= k, k < n, st.heap["message_type"][el[k]] == wait), st.heap["time"][el[k]] >= 0))
-    mono = z3.ForAll([a, b], z3.Implies(z3.And(0 <= a, a <= b, b <= n), f(a) <= f(b)), patterns=[z3.MultiPattern(f(a), f(b))])
+    nonneg = safe_forall([k], z3.Implies(z3.And(0 <= k, k < n, st.heap["message_type"][el[k]] == wait), st.heap["time"][el[k]] >= 0))
+    mono = safe_forall([a, b], z3.Implies(z3.And(0 <= a, a <= b, b <= n), f(a) <= f(b)), patterns=[z3.MultiPattern(f(a), f(b))])
     return BoolV(z3.Implies(nonneg, mono))
 
 
@@ -224,7 +224,7 @@ def distinct(X, st, e):
     if bound is not None:
         return BoolV(z3.And([z3.Implies(z3.And(a < n, b < n), el[a] != el[b]) for a in range(bound) for b in range(a + 1, bound)] or [TRUE]))
     a, b = fresh("da"), fresh("db")
-    return BoolV(z3.ForAll([a, b], z3.Implies(z3.And(0 <= a, a < b, b < n), el[a] != el[b]), patterns=[z3.MultiPattern(el[a], el[b])]))
+    return BoolV(safe_forall([a, b], z3.Implies(z3.And(0 <= a, a < b, b < n), el[a] != el[b]), patterns=[z3.MultiPattern(el[a], el[b])]))
 
 
 @spec
@@ -235,9 +235,18 @@ def sorted_by_time(X, st, e):
     if bound is not None:
         return BoolV(z3.And([z3.Implies(z3.And(b < n), tm[el[a]] <= tm[el[b]]) for a in range(bound) for b in range(a + 1, bound)] or [TRUE]))
     a, b = fresh("sa"), fresh("sb")
-    return BoolV(z3.ForAll([a, b], z3.Implies(z3.And(0 <= a, a <= b, b < n), tm[el[a]] <= tm[el[b]]), patterns=[z3.MultiPattern(el[a], el[b])]))
+    return BoolV(safe_forall([a, b], z3.Implies(z3.And(0 <= a, a <= b, b < n), tm[el[a]] <= tm[el[b]]), patterns=[z3.MultiPattern(el[a], el[b])]))
 
 
 @spec
 def when(X, st, e):
     return CondDes(X.truth(X.ev(e.args[0], st), st), X.ev(e.args[1], st))
+
+
+@spec
+def loop_index(X, st, e):
+    """index of the current iteration of the named for-loop (available inside its body and after it)"""
+    n = "@i_" + e.args[0].value
+    if n not in st.env:
+        raise VCError(f"loop_index({e.args[0].value}): not inside / after that loop")
+    return st.env[n]
